@@ -13,7 +13,5 @@ func cdxTreeAssembly(c *Ctx, prop string) {}
 
 func diffHelpers(c *Ctx) {}
 
-func resultDiscipline(c *Ctx, fns []string)        {}
 func wellFounded(c *Ctx, entries []string)         {}
 func geometricAccumulation(c *Ctx, ds []*declInfo) {}
-func serializerState(c *Ctx)                       {}
